@@ -70,13 +70,55 @@
       and the reply fits; authenticated, no-data verdict; authenticated, answered by a loaded zone; reply
       does not fit — the decoded TSIG record of the response (or its absence).
 
+      `C10_rows_exhaustive`: the four rows are exhaustive and mutually exclusive — a run of
+      `handle_message` on a request whose scan reaches a TSIG record, if it yields a response, falls
+      into exactly one of `RowRejected` / `RowAuthNoData` / `RowAuthAnswer` / `RowNoFit`
+      (`ServerContent.tsigProcess_rows`: every non-panicking run of the TSIG step has a key name that
+      parses and is either rejected by `tsigStopReply` or authenticated; `fromName_parses`: a name the
+      algorithm table knows is a well-formed wire name); `C10_decoded_table_of_run` gives the decoded
+      response of that row for the same `t`, `mw`, `r'`.
+  (i) towards `C10_full`, per clause of the executable audit `Spec.ServerTsig.audit`:
+      `C10_audit_scan_agrees` (the audit's scan and the model's agree on "a response is due" and on
+      "a TSIG record is reached", whatever the catalogs), `C10_audit_pre_tsig` (classes "no-response"
+      and "pre-tsig": the audit returns no tag — a response to a request without an acceptable TSIG
+      carries no record of type 250), `C10_audit_reaches_decoding` (tags `panic`, `no-response`,
+      `undecodable` of `auditResponse` never arise: C01, C03, and the final writer is `Good`).
+
+      `C10_decoded_fields_of_run` (rows 1 and 2, decoded field by field with the specification's own
+      RFC 8945 §4.2 reader `Spec.Tsig.parseRdata` — round trip `ServerContent.parseRdata_tsigRdata` —
+      and with the header: RCODE of the table / verdict, AA and TC clear, fudge 300, original ID, error,
+      time signed, other data = server time iff BADTIME, MAC): the decoded facts behind the audit tags
+      `rcode-*`, `tc-in-error`, `aa-in-error`, `fudge-*`, `original-id`, `tsig-error-*`, `other-data`,
+      `badtime-other`, `tsig-class-ttl`, `mac-not-empty`; what separates them from the audit's clauses
+      is (1a)–(1c) below (the audit's own view of the request).
+
   `C10_full` (below) is the end-to-end statement "the executable C10 audit finds nothing wrong with
-  the response the model produces, for every configuration, request and clock".  Proved: (a)–(g).
-  Not proved (gap of `C10_partial`), precisely:
-  (1) `C10_full` itself: the walk through the *executable audit* (`Spec.ServerTsig.audit`: it re-derives
-      the expected outcome with its own key lookup / HMAC / time window and compares field by field,
-      and compares with the response to the request stripped of its TSIG RR) is not done; (g) proves,
-      in decoded form, the facts that audit checks for responses without answer data;
+  the response the model produces, for every configuration, request and clock".
+  Recorded amendment of the statement: `C10_full` now carries what the library API guarantees —
+  `CfgWF cfg` (catalog entries filed under their apex, non-empty RRsets), `512 ≤ cfg.payload ≤ 65535`
+  (the payload size is a `u16` ≥ 512 in the API), `req.size ≤ usize::MAX` — as `C09_full` does.
+  Proved: (a)–(i).  Not proved, precisely:
+  (1) `C10_full` itself.  Of the audit, the clauses of `auditResponse` *after* the response is decoded
+      remain, all of which need first
+      (1a) the request-side link: `viewRequest` (the audit's own walk to the TSIG RR: `findTsig`,
+           `specDecodeName`, `parseRdata`, `digestInput` over the request prefix) yields the key name,
+           RDATA fields and prefix of the model's `t` / `mw` (`hwc_tsig` keeps them existential);
+      and then, per clause:
+      (1b) `fits` (uncompressed size ≤ limit) ⇔ the model's `TsigFits` on the scan state — selects
+           between the "nofit-*" tags (decoded facts: `C10_decoded_tsig_does_not_fit`) and the rest;
+      (1c) `specTsigOutcome` = the model's decision (`tsigStopReply` / authenticated): own key lookup
+           (`findKey` on labels vs. on octets), `outputSizeOf`, `verdict` vs. `verify_request` (C11's
+           `C11_verify_*_iff`) — gives `tsig-error-*`, `rcode-*`, `notauth-on-authenticated`;
+      (1d) `parseRdata (tsigRdata rr alg mac)` = the fields of `rr` (round trip) — gives `fudge`,
+           `original-id`, `time-signed`, `other-data`, `badtime-*`, `mac-length`, `mac-not-empty`,
+           `alg-name`, `key-name`; `tsig-missing` / `two-tsig` / `tsig-not-last` / `tsig-class-ttl`
+           follow from the rows of (h) once (1b) holds;
+      (1e) `response-mac`: `macFn` = HMAC of the RFC digest input (`C10_response_mac_eq_rfc`, (d)) — needs
+           the request's key name in lower case (the model's digest uses the name as sent);
+      (1f) `data-in-unauthenticated`, `tc-in-error`, `aa-in-error` (decoded facts in (g): an = ns = [];
+           TC / AA clear need the header view of `signed_error_final`'s writer) and "answered
+           normally": comparison with the response to the stripped request (`stripTsigRr`) — needs
+           the scan of the stripped request and `C05_end_to_end(_signed)` / C04's limit monotonicity;
   (2) (closed) for authenticated requests that a loaded zone *answers*:
       `C10_decoded_authenticated_answer` — in every decoding the TSIG record is the last element of
       the additional section, with the key name as owner (up to case), `tsigRdata` of the prepared RR
@@ -123,6 +165,8 @@ def toResp : Out Unit (Option Bytes) → Spec.ServerTsig.Resp
 def C10_full : Prop :=
   ∀ (cfg : Cfg) (cat : List Spec.Server.ZoneCfg) (tr : Transport) (now : Nat) (req : Bytes),
     now < 2 ^ 48 →
+    -- what the library API guarantees (recorded amendment, see the header)
+    ServerSafety.CfgWF cfg → 512 ≤ cfg.payload → cfg.payload ≤ 65535 → req.size ≤ Rdata.USIZE_MAX →
     let resp := handleMessage cfg tr now 65535 req
     let plain := match Spec.ServerTsig.stripTsigRr req with
       | some p => toResp (handleMessage cfg tr now 65535 p)
@@ -665,6 +709,182 @@ theorem C10_decoded_tsig_does_not_fit (cfg : Cfg) (tr : Transport) (now bufLen :
     cases hw : F.edns <;> rw [hw] at he <;> simp at he ⊢
 
 open QV.ServerScan in
+/-- the rows of `C10_decoded_table`, for a given run (`ServerContent.TsigRun`: the TSIG record `t`, the
+    message without it `mw`, the reader `r'` after it) -/
+theorem C10_decoded_table_of_run (cfg : Cfg) (hcfg : ServerSafety.CfgWF cfg) (tr : Transport) (now bufLen : Nat) (req : Bytes)
+    (hbuf : minBuf tr cfg.payload ≤ bufLen) (hpay : 512 ≤ cfg.payload) (hp16 : cfg.payload ≤ 65535)
+    (hr : (Spec.Server.specScanWith (catKind cfg) cfg.payload req).respond = true)
+    (t : ReadTsigRr) (mw : Bytes) (r' : Reader.Reader) (question : Option (WName × Nat × Nat))
+    (hrun : ServerContent.TsigRun cfg tr now bufLen req t mw r' question) :
+      (∀ nowT kn an rc mode rr, TimeSigned.tryFromUnix now = some nowT →
+        WName.parse t.keyName = some (kn, []) → WName.parse t.algorithm = some (an, []) →
+        tsigStopReply realHmac cfg.keys nowT t mw.toList kn an = some (rc, mode, rr) →
+        TsigFits (preTsigState cfg tr bufLen req) mode rr →
+        ∀ b, handleMessage cfg tr now bufLen req = .ok (some b) →
+          ∀ d, Spec.specDecodeMsg b = some d →
+            d.an = [] ∧ d.ns = [] ∧
+            ∃ rest o, d.ar = rest ++ [o] ∧
+              rest.length = (if (Spec.Server.specScanWith (catKind cfg) cfg.payload req).edns then 1 else 0) ∧
+              o.ty = 250 ∧ o.cls = 255 ∧ o.rawTtl = 0 ∧
+              o.owner.map lowerU8 = rr.keyName.wire.map lowerU8 ∧
+              o.rdata = tsigRdata rr (tsigAlgName mode)
+                ((finishMac macFn ⟨mode, reservedLen mode rr, rr⟩
+                  (signedPrefix req cfg.payload (Spec.Server.specScanWith (catKind cfg) cfg.payload req) rc)).getD [])) ∧
+      (∀ r'' S, tsigAfter cfg now t mw r' (preTsigState cfg tr bufLen req) = (.ok (some r''), S) →
+      ∀ v, (v = Spec.Server.Verdict.formErr ∨ v = .notImp ∨ v = .refused ∨ v = .servFailZone) →
+        endVerdict (catKind cfg) req.size (Spec.Server.specScanWith (catKind cfg) cfg.payload req).question
+          r'.cursor ((req.getD 2 0).toNat / 8 % 16) = v →
+      ∀ b, handleMessage cfg tr now bufLen req = .ok (some b) →
+        ∃ nowT alg key kn, TimeSigned.tryFromUnix now = some nowT ∧
+          Algorithm.fromName t.algorithm = some alg ∧ findKey cfg.keys t.keyName alg = some key ∧
+          WName.parse t.keyName = some (kn, []) ∧ verifyRequest realHmac t mw.toList alg key.secret nowT = .ok () ∧
+          ∀ d, Spec.specDecodeMsg b = some d →
+            d.an = [] ∧ d.ns = [] ∧
+            ∃ rest o, d.ar = rest ++ [o] ∧
+              rest.length = (if (Spec.Server.specScanWith (catKind cfg) cfg.payload req).edns then 1 else 0) ∧
+              o.ty = 250 ∧ o.cls = 255 ∧ o.rawTtl = 0 ∧
+              o.owner.map lowerU8 = kn.wire.map lowerU8 ∧
+              o.rdata = tsigRdata (prepOf kn t nowT 0) (algName (toWriterAlg alg))
+                (macFn (respTsig alg key kn t nowT)
+                  (signedPrefix req cfg.payload (Spec.Server.specScanWith (catKind cfg) cfg.payload req)
+                    (Spec.Server.verdictRcode v).1))) ∧
+      (∀ r'' S, tsigAfter cfg now t mw r' (preTsigState cfg tr bufLen req) = (.ok (some r''), S) →
+        endVerdict (catKind cfg) req.size (Spec.Server.specScanWith (catKind cfg) cfg.payload req).question
+          r'.cursor ((req.getD 2 0).toNat / 8 % 16) = .answer →
+      ∀ b, handleMessage cfg tr now bufLen req = .ok (some b) →
+        ∃ nowT alg key kn, TimeSigned.tryFromUnix now = some nowT ∧
+          Algorithm.fromName t.algorithm = some alg ∧ findKey cfg.keys t.keyName alg = some key ∧
+          WName.parse t.keyName = some (kn, []) ∧ verifyRequest realHmac t mw.toList alg key.secret nowT = .ok () ∧
+          ∃ pre oe, b.toList = pre ++ tsigRecordOctets oe (respTsig alg key kn t nowT)
+              (some (macFn (respTsig alg key kn t nowT) pre)) ∧
+            ∀ d, Spec.specDecodeMsg b = some d →
+              ∃ rest o, d.ar = rest ++ [o] ∧ o.ty = 250 ∧ o.cls = 255 ∧ o.rawTtl = 0 ∧
+                o.owner.map lowerU8 = kn.wire.map lowerU8 ∧
+                o.rdata = tsigRdata (prepOf kn t nowT 0) (algName (toWriterAlg alg))
+                  (macFn (respTsig alg key kn t nowT) pre)) ∧
+      (∀ nowT kn, TimeSigned.tryFromUnix now = some nowT → WName.parse t.keyName = some (kn, []) →
+        ServerContent.NoFit cfg nowT t mw kn (preTsigState cfg tr bufLen req) →
+        ∀ b, handleMessage cfg tr now bufLen req = .ok (some b) →
+          ∀ d, Spec.specDecodeMsg b = some d →
+            d.tc = true ∧ d.rcode = 0 ∧ d.aa = false ∧ d.an = [] ∧ d.ns = [] ∧
+            d.ar.length = (if (Spec.Server.specScanWith (catKind cfg) cfg.payload req).edns then 1 else 0) ∧
+            (∀ o ∈ d.ar, o.ty = 41) ∧ ∀ o ∈ d.ar, o.ty ≠ 250) := by
+  refine ⟨?_, ?_, ?_, ?_⟩
+  · have h3 := ServerContent.signed_error_final_of_run cfg tr now bufLen req hbuf hpay hp16 hr t mw r' question hrun
+    intro nowT kn an rc mode rr hnow hkn han hrep hfit b hb d hd
+    obtain ⟨F, mac, hf, hG, hts, he, hmac, _⟩ := h3 nowT kn an rc mode rr hnow hkn han hrep hfit b hb
+    obtain ⟨hq1, hq2, hq3⟩ := qBody_norecs (Spec.Server.specScanWith (catKind cfg) cfg.payload req).question
+    obtain ⟨_, _, c3, c4⟩ := opt_of_good macFn F _ hG (by rw [hq3]; simp) b mac hf d hd
+    rw [hq1] at c3
+    rw [hq2] at c4
+    obtain ⟨rest, o, g1, g2, g3, g4, g5, g6, _, g8⟩ := tsig_of_good macFn F _ hG _ hts b mac hf d hd
+    refine ⟨List.length_eq_zero_iff.mp c3, List.length_eq_zero_iff.mp c4, rest, o, g1, ?_, g2, g3, g4, g5, ?_⟩
+    · rw [g8, hq3, he]; cases (Spec.Server.specScanWith (catKind cfg) cfg.payload req).edns <;> rfl
+    · rw [g6, hmac]
+  · have h3 := ServerContent.signed_nodata_final_of_run cfg tr now bufLen req hbuf hpay hp16 hr t mw r' question hrun
+    intro r'' S hT v hvv hev b hb
+    obtain ⟨nowT, alg, key, kn, F, mac, e1, e2, e3, e4, e5, hf, hG, hts, he, hmac, _⟩ := h3 r'' S hT v hvv hev b hb
+    refine ⟨nowT, alg, key, kn, e1, e2, e3, e4, e5, fun d hd => ?_⟩
+    obtain ⟨hq1, hq2, hq3⟩ := qBody_norecs (Spec.Server.specScanWith (catKind cfg) cfg.payload req).question
+    obtain ⟨_, _, c3, c4⟩ := opt_of_good macFn F _ hG (by rw [hq3]; simp) b mac hf d hd
+    rw [hq1] at c3
+    rw [hq2] at c4
+    obtain ⟨rest, o, g1, g2, g3, g4, g5, g6, _, g8⟩ := tsig_of_good macFn F _ hG _ hts b mac hf d hd
+    refine ⟨List.length_eq_zero_iff.mp c3, List.length_eq_zero_iff.mp c4, rest, o, g1, ?_, g2, g3, g4, g5, ?_⟩
+    · rw [g8, hq3, he]; cases (Spec.Server.specScanWith (catKind cfg) cfg.payload req).edns <;> rfl
+    · rw [g6, hmac]; rfl
+  · have h3 := ServerContent.signed_answer_final_of_run cfg hcfg tr now bufLen req hbuf hpay hp16 hr t mw r' question hrun
+    intro r'' S hT hev b hb
+    obtain ⟨nowT, alg, key, kn, F, mac, bd, e1, e2, e3, e4, e5, hf, hG, _, _, hts, _⟩ := h3 r'' S hT hev b hb
+    refine ⟨nowT, alg, key, kn, e1, e2, e3, e4, e5, ?_⟩
+    obtain ⟨_, hmac, oe, sT, _, _, _, _, hbl⟩ := finish_octets_tsig macFn F hG.1.inv.hdr _ hts b mac hf
+    have hmac' : mac = some (macFn (respTsig alg key kn t nowT) (finishPrefix F ++ optEnc F.edns)) := by
+      rw [hmac]; rfl
+    rw [hmac'] at hbl
+    refine ⟨finishPrefix F ++ optEnc F.edns, oe, hbl, fun d hd => ?_⟩
+    obtain ⟨rest, o, g1, g2, g3, g4, g5, g6, _, _⟩ := tsig_of_good macFn F _ hG _ hts b mac hf d hd
+    refine ⟨rest, o, g1, g2, g3, g4, g5, ?_⟩
+    rw [g6, hmac']; rfl
+  · have h3 := ServerContent.signed_nofit_final_of_run cfg tr now bufLen req hbuf hpay hp16 hr t mw r' question hrun
+    intro nowT kn hnow hkn hnf b hb d hd
+    obtain ⟨F, mac, hf, hG, hts, he, hh⟩ := h3 nowT kn hnow hkn hnf b hb
+    obtain ⟨r1, r2, r3, r4, r5, r6, r7⟩ :=
+      ServerContent.decoded_nofit F _ (qBody_norecs _) hG hts hh b mac hf d hd
+    refine ⟨r1, r2, r3, r4, r5, ?_, r7, fun o ho h => by rw [r7 o ho] at h; cases h⟩
+    rw [r6]
+    cases hed : (Spec.Server.specScanWith (catKind cfg) cfg.payload req).edns <;> rw [hed] at he <;>
+      cases hw : F.edns <;> rw [hw] at he <;> simp at he ⊢
+
+open QV.ServerScan in
+/-- **the decoded TSIG record, field by field, and the header** — rows 1 and 2 of the table for a given
+    run.  Row 1 (rejected, the reply fits): RCODE = the table's (NOTAUTH 9 / FORMERR 1), AA and TC
+    clear; the last additional record is the TSIG record and the specification's RFC 8945 §4.2 reader
+    finds in its RDATA: the algorithm name of the reply mode, fudge 300, the request's original ID, the
+    table's error (16 / 17 / 18), time signed = the prepared RR's (the client's iff BADTIME), other data
+    = the server time iff BADTIME, and the MAC `finish` computed (empty for unsigned replies).  Row 2
+    (authenticated, no-data verdict `v`): RCODE of `v`, AA and TC clear; error 0, fudge 300, original
+    ID, time signed = now, no other data, MAC = `macFn` over the octets before the record. -/
+theorem C10_decoded_fields_of_run (cfg : Cfg) (tr : Transport) (now bufLen : Nat) (req : Bytes)
+    (hbuf : minBuf tr cfg.payload ≤ bufLen) (hpay : 512 ≤ cfg.payload) (hp16 : cfg.payload ≤ 65535)
+    (hr : (Spec.Server.specScanWith (catKind cfg) cfg.payload req).respond = true)
+    (t : ReadTsigRr) (mw : Bytes) (r' : Reader.Reader) (question : Option (WName × Nat × Nat))
+    (hrun : ServerContent.TsigRun cfg tr now bufLen req t mw r' question) :
+    (∀ nowT kn an rc mode rr, TimeSigned.tryFromUnix now = some nowT →
+      WName.parse t.keyName = some (kn, []) → WName.parse t.algorithm = some (an, []) →
+      tsigStopReply realHmac cfg.keys nowT t mw.toList kn an = some (rc, mode, rr) →
+      TsigFits (preTsigState cfg tr bufLen req) mode rr →
+      ∀ b, handleMessage cfg tr now bufLen req = .ok (some b) →
+        ∀ d, Spec.specDecodeMsg b = some d →
+          d.rcode = rc ∧ (rc = 9 ∨ rc = 1) ∧ d.aa = false ∧ d.tc = false ∧
+          ∃ e, (e = 16 ∨ e = 17 ∨ e = 18) ∧ rr = prepOf kn t nowT e ∧
+          ∃ rest o mac, d.ar = rest ++ [o] ∧ o.ty = 250 ∧ o.cls = 255 ∧ o.rawTtl = 0 ∧
+            Spec.Tsig.parseRdata o.rdata = some ⟨(tsigAlgName mode).labels, Spec.Tsig.nat48 rr.timeSigned,
+              300, mac, (ReadTsigRr.originalId t).toNat % 65536, e,
+              if e = 18 then nowT.asSlice else []⟩) ∧
+    (∀ r'' S, tsigAfter cfg now t mw r' (preTsigState cfg tr bufLen req) = (.ok (some r''), S) →
+      ∀ v, (v = Spec.Server.Verdict.formErr ∨ v = .notImp ∨ v = .refused ∨ v = .servFailZone) →
+        endVerdict (catKind cfg) req.size (Spec.Server.specScanWith (catKind cfg) cfg.payload req).question
+          r'.cursor ((req.getD 2 0).toNat / 8 % 16) = v →
+      ∀ b, handleMessage cfg tr now bufLen req = .ok (some b) →
+        ∃ nowT alg key kn, TimeSigned.tryFromUnix now = some nowT ∧
+          Algorithm.fromName t.algorithm = some alg ∧ findKey cfg.keys t.keyName alg = some key ∧
+          WName.parse t.keyName = some (kn, []) ∧ verifyRequest realHmac t mw.toList alg key.secret nowT = .ok () ∧
+          ∀ d, Spec.specDecodeMsg b = some d →
+            d.rcode = (Spec.Server.verdictRcode v).1 ∧ d.aa = false ∧ d.tc = false ∧
+            ∃ rest o, d.ar = rest ++ [o] ∧ o.ty = 250 ∧ o.cls = 255 ∧ o.rawTtl = 0 ∧
+              Spec.Tsig.parseRdata o.rdata = some ⟨(algName (toWriterAlg alg)).labels, Spec.Tsig.nat48 nowT.asSlice,
+                300, macFn (respTsig alg key kn t nowT)
+                  (signedPrefix req cfg.payload (Spec.Server.specScanWith (catKind cfg) cfg.payload req)
+                    (Spec.Server.verdictRcode v).1),
+                (ReadTsigRr.originalId t).toNat % 65536, 0, []⟩) := by
+  refine ⟨?_, ?_⟩
+  · have h3 := ServerContent.signed_error_final_of_run cfg tr now bufLen req hbuf hpay hp16 hr t mw r' question hrun
+    intro nowT kn an rc mode rr hnow hkn han hrep hfit b hb d hd
+    obtain ⟨F, mac, hf, hG, hts, _, _, hh⟩ := h3 nowT kn an rc mode rr hnow hkn han hrep hfit b hb
+    obtain ⟨w1, _, w3, w4⟩ := tsigStopReply_facts hrep (parse_wf han)
+    obtain ⟨hrc, e, he, hrr⟩ := ServerContent.tsigStopReply_prep hrep
+    obtain ⟨g1, g2, g3, rest, o, q1, q2, q3, q4, q5⟩ :=
+      ServerContent.tsig_fields_of_good F _ hG _ hts w1 w3 w4 _ hh b mac hf d hd
+    refine ⟨by rw [g1]; show rc % 16 = rc; omega, hrc, g2, g3, e, he, hrr, rest, o, mac.getD [], q1, q2, q3, q4, ?_⟩
+    rw [q5]
+    subst hrr
+    have e18 : Writer.XR_BADTIME = 18 := by decide
+    simp only [prepOf, e18]
+    congr 2
+    · rcases he with rfl | rfl | rfl <;> rfl
+  · have h3 := ServerContent.signed_nodata_final_of_run cfg tr now bufLen req hbuf hpay hp16 hr t mw r' question hrun
+    intro r'' S hT v hvv hev b hb
+    obtain ⟨nowT, alg, key, kn, F, mac, e1, e2, e3, e4, e5, hf, hG, hts, _, hmac, hh⟩ := h3 r'' S hT v hvv hev b hb
+    refine ⟨nowT, alg, key, kn, e1, e2, e3, e4, e5, fun d hd => ?_⟩
+    obtain ⟨l1, l2⟩ := prepOf_lengths kn t nowT 0
+    obtain ⟨g1, g2, g3, rest, o, q1, q2, q3, q4, q5⟩ :=
+      ServerContent.tsig_fields_of_good F _ hG _ hts (algName_wf _) l1 l2 _ hh b mac hf d hd
+    refine ⟨by rw [g1]; show (Spec.Server.verdictRcode v).1 % 16 = _; rcases hvv with rfl | rfl | rfl | rfl <;> rfl,
+      g2, g3, rest, o, q1, q2, q3, q4, ?_⟩
+    rw [q5, hmac]
+    rfl
+
+open QV.ServerScan in
 /-- **the decision table, decoded — one theorem.**  For a request whose scan reaches a well-formed TSIG
     record there are that record `t`, the message without it `mw` and the reader `r'` after it such
     that all rows hold *for these*:
@@ -740,51 +960,32 @@ theorem C10_decoded_table (cfg : Cfg) (hcfg : ServerSafety.CfgWF cfg) (tr : Tran
             d.ar.length = (if (Spec.Server.specScanWith (catKind cfg) cfg.payload req).edns then 1 else 0) ∧
             (∀ o ∈ d.ar, o.ty = 41) ∧ ∀ o ∈ d.ar, o.ty ≠ 250) := by
   obtain ⟨t, mw, r', question, hrun⟩ := ServerContent.tsigRun_exists cfg tr now bufLen req hbuf hpay hreq hr hv
-  refine ⟨t, mw, r', hrun.1, hrun.2.1, ?_, ?_, ?_, ?_⟩
-  · have h3 := ServerContent.signed_error_final_of_run cfg tr now bufLen req hbuf hpay hp16 hr t mw r' question hrun
-    intro nowT kn an rc mode rr hnow hkn han hrep hfit b hb d hd
-    obtain ⟨F, mac, hf, hG, hts, he, hmac⟩ := h3 nowT kn an rc mode rr hnow hkn han hrep hfit b hb
-    obtain ⟨hq1, hq2, hq3⟩ := qBody_norecs (Spec.Server.specScanWith (catKind cfg) cfg.payload req).question
-    obtain ⟨_, _, c3, c4⟩ := opt_of_good macFn F _ hG (by rw [hq3]; simp) b mac hf d hd
-    rw [hq1] at c3
-    rw [hq2] at c4
-    obtain ⟨rest, o, g1, g2, g3, g4, g5, g6, _, g8⟩ := tsig_of_good macFn F _ hG _ hts b mac hf d hd
-    refine ⟨List.length_eq_zero_iff.mp c3, List.length_eq_zero_iff.mp c4, rest, o, g1, ?_, g2, g3, g4, g5, ?_⟩
-    · rw [g8, hq3, he]; cases (Spec.Server.specScanWith (catKind cfg) cfg.payload req).edns <;> rfl
-    · rw [g6, hmac]
-  · have h3 := ServerContent.signed_nodata_final_of_run cfg tr now bufLen req hbuf hpay hp16 hr t mw r' question hrun
-    intro r'' S hT v hvv hev b hb
-    obtain ⟨nowT, alg, key, kn, F, mac, e1, e2, e3, e4, e5, hf, hG, hts, he, hmac⟩ := h3 r'' S hT v hvv hev b hb
-    refine ⟨nowT, alg, key, kn, e1, e2, e3, e4, e5, fun d hd => ?_⟩
-    obtain ⟨hq1, hq2, hq3⟩ := qBody_norecs (Spec.Server.specScanWith (catKind cfg) cfg.payload req).question
-    obtain ⟨_, _, c3, c4⟩ := opt_of_good macFn F _ hG (by rw [hq3]; simp) b mac hf d hd
-    rw [hq1] at c3
-    rw [hq2] at c4
-    obtain ⟨rest, o, g1, g2, g3, g4, g5, g6, _, g8⟩ := tsig_of_good macFn F _ hG _ hts b mac hf d hd
-    refine ⟨List.length_eq_zero_iff.mp c3, List.length_eq_zero_iff.mp c4, rest, o, g1, ?_, g2, g3, g4, g5, ?_⟩
-    · rw [g8, hq3, he]; cases (Spec.Server.specScanWith (catKind cfg) cfg.payload req).edns <;> rfl
-    · rw [g6, hmac]; rfl
-  · have h3 := ServerContent.signed_answer_final_of_run cfg hcfg tr now bufLen req hbuf hpay hp16 hr t mw r' question hrun
-    intro r'' S hT hev b hb
-    obtain ⟨nowT, alg, key, kn, F, mac, bd, e1, e2, e3, e4, e5, hf, hG, _, _, hts, _⟩ := h3 r'' S hT hev b hb
-    refine ⟨nowT, alg, key, kn, e1, e2, e3, e4, e5, ?_⟩
-    obtain ⟨_, hmac, oe, sT, _, _, _, _, hbl⟩ := finish_octets_tsig macFn F hG.1.inv.hdr _ hts b mac hf
-    have hmac' : mac = some (macFn (respTsig alg key kn t nowT) (finishPrefix F ++ optEnc F.edns)) := by
-      rw [hmac]; rfl
-    rw [hmac'] at hbl
-    refine ⟨finishPrefix F ++ optEnc F.edns, oe, hbl, fun d hd => ?_⟩
-    obtain ⟨rest, o, g1, g2, g3, g4, g5, g6, _, _⟩ := tsig_of_good macFn F _ hG _ hts b mac hf d hd
-    refine ⟨rest, o, g1, g2, g3, g4, g5, ?_⟩
-    rw [g6, hmac']; rfl
-  · have h3 := ServerContent.signed_nofit_final_of_run cfg tr now bufLen req hbuf hpay hp16 hr t mw r' question hrun
-    intro nowT kn hnow hkn hnf b hb d hd
-    obtain ⟨F, mac, hf, hG, hts, he, hh⟩ := h3 nowT kn hnow hkn hnf b hb
-    obtain ⟨r1, r2, r3, r4, r5, r6, r7⟩ :=
-      ServerContent.decoded_nofit F _ (qBody_norecs _) hG hts hh b mac hf d hd
-    refine ⟨r1, r2, r3, r4, r5, ?_, r7, fun o ho h => by rw [r7 o ho] at h; cases h⟩
-    rw [r6]
-    cases hed : (Spec.Server.specScanWith (catKind cfg) cfg.payload req).edns <;> rw [hed] at he <;>
-      cases hw : F.edns <;> rw [hw] at he <;> simp at he ⊢
+  obtain ⟨h1, h2, h3, h4⟩ := C10_decoded_table_of_run cfg hcfg tr now bufLen req hbuf hpay hp16 hr t mw r' question hrun
+  exact ⟨t, mw, r', hrun.1, hrun.2.1, h1, h2, h3, h4⟩
+
+open QV.ServerScan in
+/-- **(a) the four rows are exhaustive and mutually exclusive.**  For a request whose scan reaches a
+    well-formed TSIG record (`TsigRun`; `ServerContent.tsigRun_exists`): if `handle_message` yields a
+    response, the run falls into exactly one row of `C10_decoded_table` — rejected by the decision
+    table and the reply TSIG fits (`RowRejected`), authenticated with a no-data verdict
+    (`RowAuthNoData`), authenticated and answered by a loaded zone (`RowAuthAnswer`), or the reply TSIG
+    does not fit (`RowNoFit`) — and `C10_decoded_table_of_run` gives the decoded response of that row
+    for the same `t`, `mw`, `r'`. -/
+theorem C10_rows_exhaustive (cfg : Cfg) (tr : Transport) (now bufLen : Nat) (req : Bytes)
+    (hbuf : minBuf tr cfg.payload ≤ bufLen) (hpay : 512 ≤ cfg.payload)
+    (hr : (Spec.Server.specScanWith (catKind cfg) cfg.payload req).respond = true)
+    (t : ReadTsigRr) (mw : Bytes) (r' : Reader.Reader) (question : Option (WName × Nat × Nat))
+    (hrun : ServerContent.TsigRun cfg tr now bufLen req t mw r' question)
+    (b : Bytes) (hb : handleMessage cfg tr now bufLen req = .ok (some b)) :
+    (ServerContent.RowRejected cfg tr now bufLen req t mw ∨ ServerContent.RowAuthNoData cfg tr now bufLen req t mw r' ∨
+      ServerContent.RowAuthAnswer cfg tr now bufLen req t mw r' ∨ ServerContent.RowNoFit cfg tr now bufLen req t mw) ∧
+    ¬ (ServerContent.RowRejected cfg tr now bufLen req t mw ∧ ServerContent.RowAuthNoData cfg tr now bufLen req t mw r') ∧
+    ¬ (ServerContent.RowRejected cfg tr now bufLen req t mw ∧ ServerContent.RowAuthAnswer cfg tr now bufLen req t mw r') ∧
+    ¬ (ServerContent.RowRejected cfg tr now bufLen req t mw ∧ ServerContent.RowNoFit cfg tr now bufLen req t mw) ∧
+    ¬ (ServerContent.RowAuthNoData cfg tr now bufLen req t mw r' ∧ ServerContent.RowAuthAnswer cfg tr now bufLen req t mw r') ∧
+    ¬ (ServerContent.RowAuthNoData cfg tr now bufLen req t mw r' ∧ ServerContent.RowNoFit cfg tr now bufLen req t mw) ∧
+    ¬ (ServerContent.RowAuthAnswer cfg tr now bufLen req t mw r' ∧ ServerContent.RowNoFit cfg tr now bufLen req t mw) :=
+  ServerContent.rows_exhaustive cfg tr now bufLen req hbuf hpay hr t mw r' question hrun b hb
 
 open QV.ServerScan in
 /-- **every signed response — answers from loaded zones included.**  With `w1` the writer that
@@ -805,6 +1006,79 @@ theorem C10_tsig_record_last_owner_decodes (cfg : Cfg) (hcfg : ServerSafety.CfgW
   obtain ⟨oe, mac, w, k, h1, h2, h3, h4, h5⟩ :=
     response_tsig_owner_decodes cfg hcfg tr now bufLen req hbuf hpay hnow hreq b hb ts hts
   exact ⟨_, oe, mac, w, k, h1, h2, h3, h4, h5⟩
+
+/-! ## (i) towards `C10_full`: the executable audit, clause by clause -/
+
+theorem minBuf_le (tr : Transport) (p : Nat) (hp16 : p ≤ 65535) : ServerScan.minBuf tr p ≤ 65535 := by
+  cases tr <;> simp only [ServerScan.minBuf] <;> omega
+
+open QV.ServerScan in
+/-- the audit's scan (`specScan cat`, any catalog) and the model's (`specScanWith (catKind cfg)`) agree
+    on whether a response is due and on whether a TSIG record is reached -/
+theorem C10_audit_scan_agrees (cfg : Cfg) (cat : List Spec.Server.ZoneCfg) (req : Bytes) :
+    (Spec.Server.specScan cat cfg.payload req).respond = (Spec.Server.specScanWith (catKind cfg) cfg.payload req).respond ∧
+    ((Spec.Server.specScan cat cfg.payload req).verdict = .tsigReached ↔
+      (Spec.Server.specScanWith (catKind cfg) cfg.payload req).verdict = .tsigReached) := by
+  obtain ⟨h1, h2, _⟩ := ServerContent.specScanWith_tsig_indep
+    (fun qn qc => (Spec.Server.specCatalogLookup cat qn qc).map (·.kind)) (catKind cfg) cfg.payload req
+  exact ⟨h1, h2⟩
+
+open QV.ServerScan in
+/-- **audit clause "pre-tsig" (and "no-response")**: for a request to which no response is due, or
+    whose scan does not reach an acceptable TSIG record, the audit returns no tag: the response — if
+    there is one and it decodes — carries no record of type 250
+    (`C10:tsig-in-response-without-acceptable-request-tsig`) -/
+theorem C10_audit_pre_tsig (cfg : Cfg) (hcfg : ServerSafety.CfgWF cfg) (cat : List Spec.Server.ZoneCfg)
+    (tr : Transport) (now : Nat) (req : Bytes) (hpay : 512 ≤ cfg.payload) (hp16 : cfg.payload ≤ 65535)
+    (hreq : req.size ≤ Rdata.USIZE_MAX) (plain : Spec.ServerTsig.Resp)
+    (h : (Spec.Server.specScan cat cfg.payload req).respond = false ∨
+      (Spec.Server.specScan cat cfg.payload req).verdict ≠ .tsigReached) :
+    (Spec.ServerTsig.audit hmSpec cat cfg.payload (specKeys cfg.keys) req now (tr = .udp)
+      (toResp (handleMessage cfg tr now 65535 req)) plain).1 = [] := by
+  obtain ⟨a1, a2⟩ := C10_audit_scan_agrees cfg cat req
+  unfold Spec.ServerTsig.audit
+  simp only
+  cases hres : (Spec.Server.specScan cat cfg.payload req).respond with
+  | false => simp
+  | true =>
+    have hv : (Spec.Server.specScan cat cfg.payload req).verdict ≠ .tsigReached := by
+      rcases h with h | h
+      · rw [hres] at h; cases h
+      · exact h
+    simp only [Bool.not_true, Bool.false_eq_true, if_false, hv, ne_eq, not_false_eq_true, if_true]
+    rcases hm : handleMessage cfg tr now 65535 req with (_ | b) | e | _
+    · rfl
+    · simp only [toResp]
+      cases hd : Spec.specDecodeMsg b with
+      | none => rfl
+      | some d =>
+        simp only
+        have hno := ServerContent.unsigned_no_tsig cfg hcfg tr now 65535 req (minBuf_le tr _ hp16) hpay hp16 hreq
+          (by rw [← a1]; exact hres) (fun hx => hv (a2.mpr hx)) b hm d hd
+        have : d.ar.any (fun r => decide (r.ty = 250)) = false := by
+          rw [List.any_eq_false]
+          intro o ho; simpa using hno o ho
+        rw [this]; rfl
+    · rfl
+    · rfl
+
+open QV.ServerScan in
+/-- **audit clauses "panic", "no-response", "undecodable"**: a request whose scan reaches an acceptable
+    TSIG record gets a response (no panic — C01; a response is due), and the response decodes under
+    the independent decoder — so the audit goes on to the clauses about the decoded response -/
+theorem C10_audit_reaches_decoding (cfg : Cfg) (hcfg : ServerSafety.CfgWF cfg) (cat : List Spec.Server.ZoneCfg)
+    (tr : Transport) (now : Nat) (req : Bytes) (hnow : now < 2 ^ 48) (hpay : 512 ≤ cfg.payload)
+    (hp16 : cfg.payload ≤ 65535) (hreq : req.size ≤ Rdata.USIZE_MAX)
+    (hr : (Spec.Server.specScan cat cfg.payload req).respond = true)
+    (hv : (Spec.Server.specScan cat cfg.payload req).verdict = .tsigReached) :
+    ∃ b d, toResp (handleMessage cfg tr now 65535 req) = .bytes b ∧ Spec.specDecodeMsg b = some d := by
+  obtain ⟨a1, a2⟩ := C10_audit_scan_agrees cfg cat req
+  have hnp : handleMessage cfg tr now 65535 req ≠ .panic :=
+    C01.C01_holds cfg tr now 65535 req hcfg
+      ⟨by cases tr <;> simp only <;> omega, hnow, by unfold Rdata.USIZE_MAX at hreq; omega⟩
+  obtain ⟨b, d, hb, hd⟩ := ServerContent.signed_response_decodes cfg hcfg tr now 65535 req (minBuf_le tr _ hp16)
+    hpay hp16 hreq (by rw [← a1]; exact hr) (a2.mp hv) hnp
+  exact ⟨b, d, by rw [hb]; rfl, hd⟩
 
 /-! ## non-vacuity: concrete instances of the hypotheses used above -/
 
